@@ -601,6 +601,9 @@ func (x *Exec) doAppend(fr *Frame, cc *ssa.CallCommon, args []Value, pos token.P
 	res := x.C.Def("app_res", T(SSlice, fmt.Sprintf("(mk-slice %s (s-off %s) %s %s)", arr.S, s.S, newLen.S, Ite(fits, T(SInt, app("s-cap", s.S)), newCap).S)))
 	// appending nothing writes nothing (also keeps a nil slice nil)
 	isNoop := T(SBool, app("=", n.S, "0"))
+	if x.LockHavoc && memName == "Mem_Val" {
+		x.lockCheck(st, "Mem_Val", arr)
+	}
 	x.setComp(st, memName, Ite(isNoop, mem, Store(mem, arr, row)))
 	x.setComp(st, "alloc", Ite(fits, fa, T(SInt, app("+", fa.S, "1"))))
 	x.epochReset(st)
